@@ -51,6 +51,8 @@ type tcase struct {
 	Sched    string         `json:"write_scheduler,omitempty"`
 	Step     string         `json:"stall_step,omitempty"`
 	raw      []byte
+	gen      string // how raw is produced from genSeed when the case is run (raw is dropped again afterwards:
+	genSeed  int64  //  tens of thousands of byte strings held for the whole run cost tens of GB under the race detector)
 	stallErr string
 }
 
@@ -419,7 +421,39 @@ func drain(c net.Conn, quiet time.Duration) {
 	}
 }
 
+// materialize builds the bytes of a generated case from its own seed.
+func (tc *tcase) materialize() {
+	if tc.raw != nil || tc.gen == "" {
+		return
+	}
+	rng := rand.New(rand.NewSource(tc.genSeed))
+	switch tc.gen {
+	case "pool-uploads":
+		tc.raw = uploadsOfPoolSizes(rng)
+	case "prehandshake":
+		tc.raw = preHandshake(rng)
+	case "h1":
+		tc.raw = h1Garbage(rng)
+	case "h2":
+		tc.raw = mutate(rng, h2Valid(rng))
+		switch rng.Intn(5) {
+		case 0, 1:
+			tc.raw = randomFrames(rng)
+		case 2:
+			tc.raw = floodThenRequest(rng)
+		}
+	}
+}
+
+// drop frees the bytes of a generated case (they can be rebuilt from the seed).
+func (tc *tcase) drop() {
+	if tc.gen != "" {
+		tc.raw, tc.Hex = nil, ""
+	}
+}
+
 func execCase(v *victim, tc *tcase) {
+	tc.materialize()
 	d := net.Dialer{Timeout: 5 * time.Second}
 	c, err := d.Dial("tcp", v.addr)
 	if err != nil {
@@ -843,24 +877,17 @@ func main() {
 		batched = append(batched, &tcase{Class: "post-handshake-bytes", Proto: "h2", raw: raw})
 	}
 	for i := run.Pick(60, 600); i > 0; i-- {
-		batched = append(batched, &tcase{Class: "post-handshake-bytes", Proto: "h2", raw: uploadsOfPoolSizes(rng)})
+		batched = append(batched, &tcase{Class: "post-handshake-bytes", Proto: "h2", gen: "pool-uploads", genSeed: rng.Int63()})
 	}
 	nfuzz := run.Pick(900, 40000)
 	for i := 0; i < nfuzz; i++ {
 		switch i % 3 {
 		case 0:
-			batched = append(batched, &tcase{Class: "prehandshake", raw: preHandshake(rng)})
+			batched = append(batched, &tcase{Class: "prehandshake", gen: "prehandshake", genSeed: rng.Int63()})
 		case 1:
-			raw := mutate(rng, h2Valid(rng))
-			switch rng.Intn(5) {
-			case 0, 1:
-				raw = randomFrames(rng)
-			case 2:
-				raw = floodThenRequest(rng)
-			}
-			batched = append(batched, &tcase{Class: "post-handshake-bytes", Proto: "h2", raw: raw})
+			batched = append(batched, &tcase{Class: "post-handshake-bytes", Proto: "h2", gen: "h2", genSeed: rng.Int63()})
 		case 2:
-			batched = append(batched, &tcase{Class: "post-handshake-bytes", Proto: "http/1.1", raw: h1Garbage(rng)})
+			batched = append(batched, &tcase{Class: "post-handshake-bytes", Proto: "http/1.1", gen: "h1", genSeed: rng.Int63()})
 		}
 	}
 
@@ -1048,6 +1075,7 @@ func main() {
 				batch := mine[off:min(off+25, len(mine))]
 				var bw sync.WaitGroup
 				for _, tc := range batch {
+					tc.materialize()
 					journal(tc)
 					run.Eval(1)
 					run.Add("cases_"+tc.Class, 1)
@@ -1064,6 +1092,9 @@ func main() {
 				var cerr error
 				if v.alive() {
 					if cerr = v.control(tag); cerr == nil {
+						for _, tc := range batch {
+							tc.drop()
+						}
 						continue
 					}
 				}
@@ -1091,6 +1122,9 @@ func main() {
 					}
 					run.Violation("after-batch-not-reproduced-by-single-case", map[string]any{"batch_first_case": describe(batch[0]), "batch_size": len(batch), "write_scheduler": v.sched},
 						"%s after a batch of %d concurrent cases (first: %s); replaying the cases one at a time on a fresh process did not reproduce it", what, len(batch), describe(batch[0]))
+				}
+				for _, tc := range batch {
+					tc.drop()
 				}
 			}
 		}(w)
